@@ -106,21 +106,21 @@ Print Assumptions C14_regions_are_tokens_partial.
 
 Example C14_regions_example :
   let s := [120; 32; 61; 32; 114; 98; 34; 97; 34; 32; 43; 32; 102; 34; 123; 100; 91; 39; 107; 39; 93; 58; 62; 123; 119; 125; 125; 34; 32; 35; 32; 99; 10]%N in
-  lex_sane (table_of [] [] []) s = true
-  /\ scan_regions (table_of [] [] []) s = [(4, 9, Some [114; 98]); (12, 28, Some [102]); (29, 32, None)]%N.
+  lex_sane (table_of [] [] [] []) s = true
+  /\ scan_regions (table_of [] [] [] []) s = [(4, 9, Some [114; 98]); (12, 28, Some [102]); (29, 32, None)]%N.
 Proof. exact lex_sane_example. Qed.
 Print Assumptions C14_regions_example.
 
 (* the defect fixed by 704800d, now inside the theorem's domain:  x = a or<dq>s<dq>  is lex_sane and the region is the
    literal alone (it used to start at the r of the keyword; replay corpus/C14/C14-prefix-glued-to-keyword.json) *)
 Example C14_prefix_glued_fixed :
-  lex_sane (table_of [] [] []) glued_witness = true
-  /\ scan_regions (table_of [] [] []) glued_witness = [(8, 11, Some [])]%N.
+  lex_sane (table_of [] [] [] []) glued_witness = true
+  /\ scan_regions (table_of [] [] [] []) glued_witness = [(8, 11, Some [])]%N.
 Proof. exact prefix_glued_fixed. Qed.
 Print Assumptions C14_prefix_glued_fixed.
 
 (* the side condition cannot be dropped: an illegal prefix spelling separates rope from the lexer (not a valid program) *)
-Theorem C14_prefix_spelling_refuted : exists s : text, scan_regions (table_of [] [] []) s <> ref_regions s.
+Theorem C14_prefix_spelling_refuted : exists s : text, scan_regions (table_of [] [] [] []) s <> ref_regions s.
 Proof. exact prefix_spelling_refuted. Qed.
 Print Assumptions C14_prefix_spelling_refuted.
 
@@ -128,8 +128,8 @@ Print Assumptions C14_prefix_spelling_refuted.
    This is the open finding C14-fstring-nested-quote (findings/C14-fstring-nested-quote.json). *)
 Theorem C14_fstring_nesting_refuted :
   ref_regions fnest_witness = [(4, 15, Some [102])]%N
-  /\ scan_regions (table_of [] [] []) fnest_witness = [(4, 10, Some [102]); (11, 15, Some [])]%N
-  /\ lex_sane (table_of [] [] []) fnest_witness = false.
+  /\ scan_regions (table_of [] [] [] []) fnest_witness = [(4, 10, Some [102]); (11, 15, Some [])]%N
+  /\ lex_sane (table_of [] [] [] []) fnest_witness = false.
 Proof. exact fstring_nesting_refuted. Qed.
 Print Assumptions C14_fstring_nesting_refuted.
 
@@ -167,8 +167,8 @@ Print Assumptions C14_real_code_outside_or_fstring.
 Example C14_real_code_example :
   (* x = 'a;' # c NL (1, NL 2) NL *)
   let s := [120; 32; 61; 32; 39; 97; 59; 39; 32; 35; 32; 99; 10; 40; 49; 44; 10; 50; 41; 10]%N in
-  regions_wf s (scan_regions (table_of [] [] []) s) = true
-  /\ real_code (table_of [] [] []) s = [120; 32; 61; 32; 34; 32; 32; 34; 32; 32; 32; 32; 10; 40; 49; 44; 32; 50; 41; 10]%N.
+  regions_wf s (scan_regions (table_of [] [] [] []) s) = true
+  /\ real_code (table_of [] [] [] []) s = [120; 32; 61; 32; 34; 32; 32; 34; 32; 32; 32; 32; 10; 40; 49; 44; 32; 50; 41; 10]%N.
 Proof. vm_compute. split; reflexivity. Qed.
 Print Assumptions C14_real_code_example.
 
@@ -176,9 +176,9 @@ Print Assumptions C14_real_code_example.
    Witness  x = f"{{" NL y = 1 : no bracket outside the regions, yet the newline becomes a space. *)
 Theorem C14_real_code_newline_refuted :
   exists (s : text) (o : nat), nth_error s o = Some cNL
-    /\ outside (scan_regions (table_of [] [] []) s) (N.of_nat o) = true
-    /\ plain_outside (scan_regions (table_of [] [] []) s) s = true
-    /\ nth_error (real_code (table_of [] [] []) s) o = Some cSP.
+    /\ outside (scan_regions (table_of [] [] [] []) s) (N.of_nat o) = true
+    /\ plain_outside (scan_regions (table_of [] [] [] []) s) s = true
+    /\ nth_error (real_code (table_of [] [] [] []) s) o = Some cSP.
 Proof. exact real_code_newline_refuted. Qed.
 Print Assumptions C14_real_code_newline_refuted.
 
@@ -202,7 +202,7 @@ Print Assumptions C14_logical_line_in.
 
 Example C14_logical_lines_example :
   (* x = (1, NL 2) NL NL y = 1 *)
-  custom_generator (table_of [] [] []) [[120; 32; 61; 32; 40; 49; 44]; [50; 41]; []; [121; 32; 61; 32; 49]]%N
+  custom_generator (table_of [] [] [] []) [[120; 32; 61; 32; 40; 49; 44]; [50; 41]; []; [121; 32; 61; 32; 49]]%N
   = [(1, 2); (4, 4)]%nat.
 Proof. vm_compute. reflexivity. Qed.
 Print Assumptions C14_logical_lines_example.
@@ -263,8 +263,8 @@ Print Assumptions C14_word_at.
 
 Example C14_word_at_example :
   (* ab.cd at offset 4 *)
-  w_word_range (table_of [] [] []) [97; 98; 46; 99; 100]%N 4 = Val (3, 5)%Z
-  /\ w_primary_range (table_of [] [] []) [97; 98; 46; 99; 100]%N 4 = Val (0, 5)%Z.
+  w_word_range (table_of [] [] [] []) [97; 98; 46; 99; 100]%N 4 = Val (3, 5)%Z
+  /\ w_primary_range (table_of [] [] [] []) [97; 98; 46; 99; 100]%N 4 = Val (0, 5)%Z.
 Proof. vm_compute. split; reflexivity. Qed.
 Print Assumptions C14_word_at_example.
 
@@ -273,23 +273,24 @@ Print Assumptions C14_word_at_example.
    documentation (replay corpus/C14/C14-identifier-with-non-alnum-xid-continue.json) *)
 Example C14_word_at_xid_fixed :
   lex_word_range xid_witness 0 = (0, 3)%nat
-  /\ w_word_range (table_of [] [] [769]%N) xid_witness 0 = Val (0, 3)%Z
-  /\ w_word_range (table_of [] [] []) xid_witness 0 = Val (0, 1)%Z.
+  /\ w_word_range (table_of [] [] [769] []%N) xid_witness 0 = Val (0, 3)%Z
+  /\ w_word_range (table_of [] [] [] []) xid_witness 0 = Val (0, 1)%Z.
 Proof. exact word_at_xid_fixed. Qed.
 Print Assumptions C14_word_at_xid_fixed.
 
 (* FULL STATEMENT (not proved; oracle: ast attribute chains on every generated case): at the last identifier of any
    attribute chain (with calls, subscripts, spaces, continuation lines) get_primary_range is the chain.
    Proved: for plain dotted names name_1.name_2. ... .name_k without spaces, at every offset of name_k, for every text and
-   every Unicode table in which identifier characters are not white space: the range is the whole chain, provided the
-   FIRST name is no keyword (when the chain is a single name: the part of it up to the offset), no name before a dot is
-   the word from itself (the relative-import test of _find_primary_start fires on it) and the chain is not preceded by a
-   dot (hypotheses name_at / chain_from of coq/C14/PrimarySpec.v). Names ending in the letters f-r-o-m are inside the
-   theorem since rope commit b8cf919, names after a dot that are spelled like keywords since 2b4039e (_follows_dot). *)
+   every Unicode table in which identifier characters are not white space: the range is the whole chain, provided every
+   name before a dot (for the last name: the part of it up to the offset, unless the offset is not its last character)
+   is no keyword OR follows an attribute dot (attr_dot: the word before that dot does not start with a digit, i.e. the
+   dot does not end a number; rope 2b4039e + 06a46a8), no name before a dot is the word from itself (the relative-import
+   test of _find_primary_start fires on it) and the chain is not preceded by a dot (name_at / attr_dot / chain_from in
+   coq/C14/PrimarySpec.v). Names ending in the letters f-r-o-m are inside the theorem since rope commit b8cf919. *)
 Theorem C14_primary_chain_partial : forall (u : utable) (code : text) (s e o a : Z) (n : nat),
   (forall c, is_id_char u c = true -> isspace u c = false) ->
   name_at u code (lenZ code) s e -> (e = lenZ code \/ idc u code e false) -> (s <= o < e)%Z ->
-  (n = O -> iskeyword (sliceC code (lenZ code) s (o + 1)) = false \/ (o + 1 < e)%Z) ->
+  (iskeyword (sliceC code (lenZ code) s (o + 1)) = false \/ (o + 1 < e)%Z \/ attr_dot u code (lenZ code) s) ->
   chain_from u code (lenZ code) (fuel_for code) s a n ->
   w_primary_range u code o = Val (a, e).
 Proof. exact primary_chain_entry. Qed.
@@ -297,32 +298,46 @@ Print Assumptions C14_primary_chain_partial.
 
 (* the hypotheses are satisfiable: ab.cd.ef at offset 7 (proved by applying the theorem, not by evaluation) *)
 Example C14_primary_chain_example :
-  w_primary_range (table_of [] [] []) [97; 98; 46; 99; 100; 46; 101; 102]%N 7 = Val (0, 8)%Z.
+  w_primary_range (table_of [] [] [] []) [97; 98; 46; 99; 100; 46; 101; 102]%N 7 = Val (0, 8)%Z.
 Proof. exact primary_chain_example. Qed.
 Print Assumptions C14_primary_chain_example.
 
 (* s.is.x : an attribute name spelled like a keyword no longer cuts the chain (2b4039e) *)
 Example C14_primary_keyword_attribute_example :
-  w_primary_range (table_of [] [] []) [115; 46; 105; 115; 46; 120]%N 5 = Val (0, 6)%Z
-  /\ w_primary_range (table_of [] [] []) [115; 46; 105; 115; 46; 120]%N 3 = Val (0, 4)%Z.
+  w_primary_range (table_of [] [] [] []) [115; 46; 105; 115; 46; 120]%N 5 = Val (0, 6)%Z
+  /\ w_primary_range (table_of [] [] [] []) [115; 46; 105; 115; 46; 120]%N 3 = Val (0, 4)%Z.
 Proof. exact primary_keyword_attribute_example. Qed.
 Print Assumptions C14_primary_keyword_attribute_example.
 
 (* the defect fixed by b8cf919:  x = date_from.year  (replay corpus/C14/C14-name-ending-in-from.json) *)
 Example C14_primary_from_fixed :
   lex_chain_range fromname_witness 14 = (4, 18)%nat
-  /\ w_primary_range (table_of [] [] []) fromname_witness 14 = Val (4, 18)%Z.
+  /\ w_primary_range (table_of [] [] [] []) fromname_witness 14 = Val (4, 18)%Z.
 Proof. exact primary_from_fixed. Qed.
 Print Assumptions C14_primary_from_fixed.
 
 (* The faithful model still refutes the full statement in two places (open findings): *)
 
+(* the defect fixed by 06a46a8:  y = b if 3. else (c).r . History: with _follows_dot as rope 2b4039e introduced it (the
+   as-found variant kept in coq/C14/Words.v as parameter as_found) the reported primary [9,22) contained the keyword else;
+   the current model and rope report the expression (c).r = [17,22) (replay corpus/C14/C14-keyword-after-float-dot.json) *)
+Theorem C14_primary_keyword_after_float_refuted_as_found :
+  w_primary_range_as_found_2b4039e u0 (real_code u0 kwdot_witness) 21 = Val (9, 22)%Z
+  /\ iskeyword (sliceZ kwdot_witness 12 16) = true.
+Proof. exact primary_keyword_after_float_refuted_as_found. Qed.
+Print Assumptions C14_primary_keyword_after_float_refuted_as_found.
+
+Example C14_primary_keyword_after_float_fixed :
+  w_primary_range u0 (real_code u0 kwdot_witness) 21 = Val (17, 22)%Z.
+Proof. exact primary_keyword_after_float_fixed. Qed.
+Print Assumptions C14_primary_keyword_after_float_fixed.
+
 (* y(.5).z : the start of the reported expression is negative *)
-Theorem C14_primary_dot_number_refuted : negative_primary_start (real_code (table_of [] [] []) dotnum_witness).
+Theorem C14_primary_dot_number_refuted : negative_primary_start (real_code (table_of [] [] [] []) dotnum_witness).
 Proof. exact primary_dot_number_refuted. Qed.
 Print Assumptions C14_primary_dot_number_refuted.
 
 (* an f-string containing its own (escaped) quote inside call brackets: negative start as well *)
-Theorem C14_primary_fstring_quote_refuted : negative_primary_start (real_code (table_of [] [] []) fquote_witness).
+Theorem C14_primary_fstring_quote_refuted : negative_primary_start (real_code (table_of [] [] [] []) fquote_witness).
 Proof. exact primary_fstring_quote_refuted. Qed.
 Print Assumptions C14_primary_fstring_quote_refuted.
